@@ -221,6 +221,22 @@ CHECKS["C18"] = dict(
     assumptions=["y axis points down (FLIPMD exchanges x and y)"],
 )
 
+CHECKS["C14"] = dict(
+    stages=[stage("C14", quick=dict(cases=240, size=100, shards=12, timeout=1500), thorough=dict(cases=15000, size=100, shards=16), case_timeout=900)],
+    technique="rapidcheck property-based testing: generated connected graphs through doHOLA, validity predicates over the returned drawing",
+    level_text="Generated connected simple graphs (trees, cycles, tree+chords, dense core with hanging trees, hubs; 2-30 nodes quick, "
+               "2-60 thorough; node sizes 10-100; random and coincident initial positions) built through TGLF or through the Graph API, with "
+               "ACA/chains for links, near-alignment on/off, three aspect-ratio classes, four tree growth directions and three paddings.  "
+               "After doHOLA: same node ids and edge end pairs, sizes unchanged (1e-9), no two node boxes overlap (1e-6), every route has "
+               ">=2 points, only axis-parallel segments (exact), starts/ends within the padded box of its end nodes, passes through no other "
+               "node, and every constraint generated from the returned SepMatrix holds for the returned positions (1e-6).",
+    level_note="Sampled graphs only; each case costs 0.2-2 s under ASan, so the quick tier is small.  'Within the documented padding' uses nodePaddingScalar x ideal edge length.",
+    rule="rapidcheck-generated connected graphs in five families; non-trivial = the graph has a cycle and a degree-1 node (so both the core "
+         "and the tree pipeline run); distinct by FNV-1a of the case text",
+    min_nontrivial=dict(quick=40, thorough=3000),
+    assumptions=["no multi-edges, no self-loops, connected (the property's quantifier)"],
+)
+
 # every check treats a library assertion at a site that is not a listed C15 finding as a violation of its own property
 for _k in CHECKS:
     NOT_APPLICABLE.pop(_k, None)
